@@ -13,8 +13,9 @@
      `current_address + "." + name`; otherwise the name IS the address  [resolve];
      `local(a)` = `current_address + "." + a`  [local_addr].  The root store has address "", so the
      entity `e` of component `n` lives at ".n.e" and play()'s `previous_callbacks` at ".previous_callbacks".
-   * `TandemDispatcher`, `ContextDispatcher` (component/base.py), `RouterDispatcher`: Model/Router.v,
-     reused unchanged; a component dispatcher / the timer is a `Prim`  [comp_disp, timer_disp, disp_of]
+   * `TandemDispatcher` (base first; a base answer containing an event tagged REJECT is returned as it is, the
+     addon followers are skipped), `ContextDispatcher` (component/base.py), `RouterDispatcher`: Model/Router.v,
+     reused, instantiated with `ev_is_reject`; a component dispatcher / the timer is a `Prim`  [comp_disp, timer_disp, disp_of]
    * `_get_event_callbacks`: methods `<method>.emitted.<tag or ''>` / `<method>.done.<tag or ''>`
      [emitted_cb, done_cb]
    simulate/component/base.py
@@ -208,6 +209,9 @@ Section Dispatch.
     match ev_tag e with Some t => String.eqb t REJECT || String.eqb t ACCEPT | None => false end.
   Definition accept_event (name method : string) : event :=
     {| ev_name := name; ev_pay := empty_pay; ev_method := method; ev_tag := Some ACCEPT; ev_handler := None |}.
+  (* what TandemDispatcher tests on the (already TAGGED) answer of the base dispatcher: event["tag"] == Tag.REJECT *)
+  Definition ev_is_reject (e : event) : bool :=
+    match ev_tag e with Some t => String.eqb t REJECT | None => false end.
   Definition tag_events (name method : string) (raw : list event) : list event :=
     (map (tag_event method) raw ++
      (if forallb (fun e => negb (is_rej_acc e)) raw then [accept_event name method] else []))%list.
@@ -274,8 +278,8 @@ Section Dispatch.
   (* kms.get_builder: the components in order, the timer last *)
   Definition shipped_system (cs : list component) : list inst := (map IComp cs ++ [ITimer])%list.
 
-  Definition dispatch_c := Router.dispatch_c string action rst event String.eqb sig_of.
-  Definition dispatch_nc := Router.dispatch_nc string action rst event String.eqb sig_of.
+  Definition dispatch_c := Router.dispatch_c string action rst event String.eqb sig_of ev_is_reject.
+  Definition dispatch_nc := Router.dispatch_nc string action rst event String.eqb sig_of ev_is_reject.
 
   (* statically: which addresses can one dispatch of signature `s` write (components that include it,
      transitively through their addons; the timer for "*.elapse") *)
@@ -380,7 +384,7 @@ Arguments ev_name {Pay}. Arguments ev_pay {Pay}. Arguments ev_method {Pay}. Argu
 Arguments ev_handler {Pay}. Arguments Build_event {Pay}.
 Arguments a_name {Pay}. Arguments a_method {Pay}. Arguments a_pay {Pay}. Arguments a_addon {Pay}.
 Arguments Build_action {Pay}.
-Arguments sig_of {Pay}.
+Arguments sig_of {Pay}. Arguments ev_is_reject {Pay}.
 Arguments RNone {Pay}. Arguments ROne {Pay}. Arguments RList {Pay}.
 Arguments m_method {Ent Pay}. Arguments m_red {Ent Pay}. Arguments Build_mapping {Ent Pay}.
 Arguments ad_when {Pay}. Arguments ad_action {Pay}. Arguments Build_addon {Pay}.
